@@ -764,10 +764,20 @@ impl Task {
         let hooks = self.hooks.read().unwrap();
         let default = Vec::new();
         let stmts = hooks.get(&key).unwrap_or(&default);
+        let mut ret = Ok(());
         for s in stmts {
-            s.run(ctx)?;
+            if let Err(err) = s.run(ctx) {
+                // timeout rules do not depend on each other:
+                // a rule that fails (an unparsable limit) does not keep the later ones from firing
+                if key != TaskLifeCycle::Timeout {
+                    return Err(err);
+                }
+                if ret.is_ok() {
+                    ret = Err(err);
+                }
+            }
         }
-        Ok(())
+        ret
     }
 
     pub(crate) fn set_hooks(&self, hooks: &HashMap<TaskLifeCycle, Vec<StatementBatch>>) {
